@@ -310,6 +310,14 @@ def end_to_end(res, ctx, rng):
 
 def run(ctx):
     res = core.Result()
+    # the decoded instants are UTC instants whatever the local zone of the decoding process is
+    import os
+    import time
+    zone = ('UTC', 'PST8PDT,M3.2.0,M11.1.0', 'NZST-12NZDT,M9.5.0,M4.1.0/3', 'IST-5:30')[(ctx.shard + ctx.seed) % 4]
+    os.environ['TZ'] = zone
+    time.tzset()
+    res.notes['process_time_zone'] = zone
+    res.count('shards_in_zone_' + zone.split(',')[0])
     rng = ctx.rng
     subsets_workload(res, ctx, rng)
     if ctx.shard == 0:
